@@ -145,6 +145,10 @@ MatchDepth(T, P) == MatchDepthFrom(T, P, 0)
 
 VARIABLES T, sa, have
 
+(* an answer predicate is evaluated as a VALUE: inside an action TLC would turn every disjunction *)
+(* under a bounded quantifier into a separate (identical) successor state                         *)
+Holds(P) == IF P THEN TRUE ELSE FALSE
+
 SAInit == T = <<>> /\ sa = <<>> /\ have = FALSE
 
 IsText(t) == \A k \in 1..Len(t) : t[k] \in 0..255
@@ -153,7 +157,7 @@ IsText(t) == \A k \in 1..Len(t) : t[k] \in 0..255
 SetText(t) == IsText(t) /\ T' = t /\ sa' = <<>> /\ have' = FALSE
 
 (* construction returned Ok(array) *)
-Built(s) == IsSA(T, s) /\ sa' = s /\ have' = TRUE /\ UNCHANGED T
+Built(s) == Holds(IsSA(T, s)) /\ sa' = s /\ have' = TRUE /\ UNCHANGED T
 (* construction returned Err: refused, nothing to judge further (refusal rule) *)
 BuildRefused == UNCHANGED <<T, sa, have>>
 
@@ -169,22 +173,22 @@ RanksAns(r, n) ==
     /\ Len(r) = Len(T) + 1
     /\ \A k \in 1..Len(T) : r[k] = sa[k]
     /\ r[Len(T) + 1] = 0 - 1
-RanksOk(r, n) == RanksAns(r, n) /\ Same
+RanksOk(r, n) == Holds(RanksAns(r, n)) /\ Same
 
 (* LcpArray::as_slice *)
 LcpAns(l) == have /\ LcpOk(T, sa, l)
-Lcp(l) == LcpAns(l) /\ Same
+Lcp(l) == Holds(LcpAns(l)) /\ Same
 (* lcp_at(r) for every r in 0..n : the entry, None (-1) at r = n *)
 LcpAtAns(at) ==
     /\ have
     /\ Len(at) = Len(T) + 1
     /\ LcpOk(T, sa, SubSeq(at, 1, Len(T)))
     /\ at[Len(T) + 1] = 0 - 1
-LcpAt(at) == LcpAtAns(at) /\ Same
+LcpAt(at) == Holds(LcpAtAns(at)) /\ Same
 (* LCP not computed by this configuration (documented None) / Err: refusal *)
 LcpAbsent == Same
 
-Bwt(b) == have /\ BwtOk(T, sa, b) /\ Same
+Bwt(b) == Holds(have /\ BwtOk(T, sa, b)) /\ Same
 
 (* a batch of searches: pats[k] answered by the half-open rank range [res[k][1], res[k][2]) *)
 SearchesAns(pats, res) ==
@@ -196,7 +200,7 @@ SearchesAns(pats, res) ==
     /\ \A k \in 1..Len(pats) : Len(pats[k]) = 0 =>
           \/ res[k] = <<0, Len(T)>>
           \/ res[k] = <<0, 0>>
-Searches(pats, res) == SearchesAns(pats, res) /\ Same
+Searches(pats, res) == Holds(SearchesAns(pats, res)) /\ Same
 
 (* a batch of position lists (find_pattern) and counts (count_pattern) *)
 FindsAns(pats, res) ==
@@ -206,13 +210,13 @@ FindsAns(pats, res) ==
     /\ \A k \in 1..Len(pats) : Len(pats[k]) = 0 =>
           \/ PositionsOk(T, pats[k], res[k])
           \/ res[k] = <<>>
-Finds(pats, res) == FindsAns(pats, res) /\ Same
+Finds(pats, res) == Holds(FindsAns(pats, res)) /\ Same
 CountsAns(pats, res) ==
     /\ have
     /\ Len(res) = Len(pats)
     /\ \A k \in 1..Len(pats) : Len(pats[k]) > 0 => res[k] = Cardinality(Occurrences(T, pats[k]))
     /\ \A k \in 1..Len(pats) : Len(pats[k]) = 0 => res[k] \in {0, Len(T)}
-Counts(pats, res) == CountsAns(pats, res) /\ Same
+Counts(pats, res) == Holds(CountsAns(pats, res)) /\ Same
 
 (* dictionary matcher (array not observable): sa_match_continuation(0, n, 0, P) = (lo, hi, depth): *)
 (* depth = longest prefix of P occurring in T, [lo, hi) = rank range of that prefix in THE suffix   *)
@@ -223,19 +227,65 @@ MatchesAns(pats, res) ==
           LET d == MatchDepth(T, pats[k]) IN
           /\ res[k][3] = d
           /\ RangeOk(T, SubSeq(pats[k], 1, d), res[k][1], res[k][2])
-Matches(pats, res) == MatchesAns(pats, res) /\ Same
+Matches(pats, res) == Holds(MatchesAns(pats, res)) /\ Same
 
 (* find_all_matches(P): the occurrences in suffix order (= the array entries of the rank range of P) *)
 RankedOk(T_, P, pos) ==
     /\ Len(pos) = Cardinality(Occurrences(T_, P))
     /\ { pos[k] : k \in 1..Len(pos) } = Occurrences(T_, P)
     /\ \A k \in 1..(Len(pos) - 1) : SufLess(T_, pos[k], pos[k + 1])
-RankedFindsAns(pats, res) ==
+(* minl / maxl: the configured pattern-length window of the dictionary; a pattern outside it may be *)
+(* refused with the empty list (documented), never answered wrongly                                  *)
+RankedFindsAns(pats, res, minl, maxl) ==
     /\ Len(res) = Len(pats)
-    /\ \A k \in 1..Len(pats) : RankedOk(T, pats[k], res[k])
-RankedFinds(pats, res) == RankedFindsAns(pats, res) /\ Same
-(* the dictionary was built (its array is not observable) / construction refused *)
-DictBuilt(ok, n) == (ok => n = Len(T)) /\ Same
+    /\ \A k \in 1..Len(pats) :
+          \/ RankedOk(T, pats[k], res[k])
+          \/ (Len(pats[k]) < minl \/ Len(pats[k]) > maxl) /\ res[k] = <<>>
+RankedFinds(pats, res, minl, maxl) == Holds(RankedFindsAns(pats, res, minl, maxl)) /\ Same
+
+(* MatchStatus::match_count of the logged (lo, hi, depth) triples *)
+MatchCountAns(ms, cnt) ==
+    /\ Len(cnt) = Len(ms)
+    /\ \A k \in 1..Len(ms) : cnt[k] = IF ms[k][2] > ms[k][1] THEN ms[k][2] - ms[k][1] ELSE 0
+
+(* da_match_max_length (DFA-cache front end with suffix-array fallback): the twin of            *)
+(* sa_match_continuation(0, n, 0, P) for a non-empty input; (0, 0, 0) for the empty input        *)
+DaEmptyAns(r) == r = <<0, 0, 0>>
+
+(* find_longest_match(input, position, max): Some(length, dict_position) exactly when the longest   *)
+(* prefix of input[position..] occurring in T has at least minl (>= 1) bytes; length is that        *)
+(* longest length and dict_position one of its occurrences; None (<<>>) otherwise and for           *)
+(* position >= len(input)                                                                           *)
+LongestAns(inputs, pos, res, minl) ==
+    /\ Len(res) = Len(inputs) /\ Len(pos) = Len(inputs)
+    /\ \A k \in 1..Len(inputs) :
+          IF pos[k] >= Len(inputs[k]) THEN res[k] = <<>>
+          ELSE LET Q == SubSeq(inputs[k], pos[k] + 1, Len(inputs[k]))
+                   d == MatchDepth(T, Q) IN
+               IF d >= minl /\ d >= 1
+               THEN /\ Len(res[k]) = 2
+                    /\ res[k][1] = d
+                    /\ res[k][2] \in Positions(T)
+                    /\ OccursAt(T, res[k][2], SubSeq(Q, 1, d))
+               ELSE res[k] = <<>>
+Longest(inputs, pos, res, minl) == Holds(LongestAns(inputs, pos, res, minl)) /\ Same
+
+(* sa_equal_range(lo, hi, |p|, ch): one refinement step.  [lo, hi) must be the rank range of the   *)
+(* occurring prefix p (it was returned by the library itself); the answer for byte ch is the rank  *)
+(* range of p.ch when that occurs, and an empty range (a >= b) when it does not                    *)
+EqRangeAns(p, lo, hi, chs, res) ==
+    /\ Occurrences(T, p) # {}
+    /\ lo = RangeLo(T, p) /\ hi = RangeHi(T, p)
+    /\ Len(res) = Len(chs)
+    /\ \A k \in 1..Len(chs) :
+          LET q == Append(p, chs[k]) IN
+          IF Occurrences(T, q) # {}
+          THEN res[k] = <<RangeLo(T, q), RangeHi(T, q)>>
+          ELSE res[k][1] >= res[k][2]
+EqRange(p, lo, hi, chs, res) == Holds(EqRangeAns(p, lo, hi, chs, res)) /\ Same
+
+(* the dictionary was built (its array is not observable): it holds the text / construction refused *)
+DictBuilt(ok, n, dtext) == Holds(ok => (n = Len(T) /\ dtext = T)) /\ Same
 
 (* projection of a large case (text too long to judge entry by entry in TLC): the harness *)
 (* logs the permutation flag and the number of adjacent rank pairs out of order, computed *)
